@@ -6,9 +6,9 @@ S="$1"; shift
 REPO="${VERIF_REPO:-/repo}"
 mkdir -p "$S"
 rsync -a --delete --exclude .git "$REPO"/ "$S"/
-cp -r /verif/s/vz "$S"/vz
-cp -r /verif/s/vh "$S"/vh
+cp -r "${VERIF_HOME:-/verif}"/s/vz "$S"/vz
+cp -r "${VERIF_HOME:-/verif}"/s/vh "$S"/vh
 cd "$S"
 PK=". errors protocol internal/core transport transport/inproc transport/tcp transport/tlstcp transport/ipc transport/ws transport/wss $(ls -d protocol/*/ | sed 's,/$,,' | tr '\n' ' ') $(cd "$S" && find vh -type d | tr '\n' ' ')"
-/verif/bin/vrewrite "$@" -root "$S" $PK
+"${VERIF_HOME:-/verif}"/bin/vrewrite "$@" -root "$S" $PK
 go build -trimpath -tags verif -o "$S"/vh.bin ./vh/cmd/vh
